@@ -102,9 +102,10 @@ Definition set_style (col rw s : Z) (sh : sheet) : sheet :=
   let sh1 := prepare_sheet_xml col rw sh in
   upd_cell col rw (fun c => mkCell (c_col c) (c_row c) s (c_t c) (c_v c) (c_f c)) sh1.
 
-(* rows.go:SetRowStyle: row attribute + every existing cell of the row *)
+(* rows.go:SetRowStyle: row attribute + every existing cell of the row (prepareSheetXML(0, row): the row is
+   created, no cell is) *)
 Definition set_row_style (rw s : Z) (sh : sheet) : sheet :=
-  let sh1 := prepare_sheet_xml 1 rw sh in
+  let sh1 := prepare_sheet_xml 0 rw sh in
   mkSheet (upd (rows sh1) (Z.to_nat (rw - 1))
              (fun r => mkRow (r_r r) (map (fun c => mkCell (c_col c) (c_row c) s (c_t c) (c_v c) (c_f c)) (r_cells r)) s (r_ht r) (r_hidden r)))
           (cols sh1) (merges sh1).
